@@ -7,7 +7,7 @@
    quantify over EVERY legal choice sequence `trace`). *)
 From Coq Require Import ZArith List Bool Arith Permutation.
 From CTM Require Import Base.Sx Base.SortX Model.Tree Model.Selection Proofs.SelectionP.
-From CTM Require Import Model.SelectionK Proofs.SelectionKP.   (* every genes_at_a_time: section at the end *)
+From CTM Require Import Model.SelectionK Proofs.SelectionKP Proofs.SelectionKSafeP.   (* every genes_at_a_time: section at the end *)
 Import ListNotations.
 Open Scope nat_scope.
 
@@ -343,18 +343,35 @@ Qed.
 Print Assumptions c12_batch_returns_refuted_empty_list.
 
 (* ... and when the list HAS been re-sorted (it then holds the chosen genes again) the pop after the
-   last unchosen gene returns a chosen one: RuntimeError "chose gene twice".  Two pairs, up-markers
-   {0,1,2} and {3,4}, n = 2, k = 2: 3 and 4 are taken by the desperate phase, the first update fills
-   pair 1 (re-sort), batches [2;1] and [0;4] *)
+   last unchosen gene returns a chosen one: RuntimeError "chose gene twice".  Three leaves a, b, c;
+   pair a|b has up-markers {0,1,2}, a|c up-markers {3,4}, b|c none; n = 2, k = 2: 3 and 4 are taken by
+   the desperate phase, the first update fills a|c (re-sort), batches [2;1] and [0;4].
+   select_marker_genes_v2(..., n_per_utility=2, genes_at_a_time=2) raises "chose gene 4 twice" *)
 Theorem c12_batch_returns_refuted_chosen_twice :
   exists n_genes pairs pd n k prefix batches g,
     both_ways_free pd = true /\
     replayk n_genes pairs (marks_of pd) n k prefix batches = KRaise (KTwice g).
 Proof.
-  exists 5, [0; 1], [([], [0; 1; 2]); ([], [3; 4])], 2, 2, [3; 4], [[2; 1]; [0; 4]], 4.
+  exists 5, [0; 1; 2], [([], [0; 1; 2]); ([], [3; 4]); ([], [])], 2, 2, [3; 4], [[2; 1]; [0; 4]], 4.
   vm_compute. split; reflexivity.
 Qed.
 Print Assumptions c12_batch_returns_refuted_chosen_twice.
+
+(* exactly when: a batch cannot raise while at least k genes of the thinned array are unchosen ... *)
+Theorem c12_batch_no_raise_when_enough_genes : forall n_genes pairs marks n k st pool batch e,
+  JK n_genes pairs marks n st -> PI n_genes st pool -> k <= n_genes - length (chosen st) ->
+  stepk n_genes pairs marks n k st pool batch <> SRaise e.
+Proof. exact batch_no_raise_when_enough_genes. Qed.
+Print Assumptions c12_batch_no_raise_when_enough_genes.
+
+(* ... and can only complete if there were: with fewer than k unchosen genes left and the loop not
+   finished, EVERY tie order ends in one of the two exceptions *)
+Theorem c12_batch_completes_only_with_enough_genes : forall n_genes pairs marks n k st pool batch st' pool',
+  JK n_genes pairs marks n st -> PI n_genes st pool ->
+  stepk n_genes pairs marks n k st pool batch = SNext st' pool' ->
+  k <= n_genes - length (chosen st).
+Proof. exact batch_completes_only_with_enough_genes. Qed.
+Print Assumptions c12_batch_completes_only_with_enough_genes.
 
 (* termination for every k >= 1: the fuelled deterministic instance (first member of maximal utility,
    k times per pass) never runs out of fuel n_genes + 1; it ends in `break` or in one of the two
